@@ -2815,7 +2815,7 @@ class Stream:
         try:
             file_stat = os.stat(obj.name)
             buffer_size = file_stat.st_blksize
-        except (FileNotFoundError, PermissionError, OSError):
+        except (FileNotFoundError, PermissionError, OSError, AttributeError):
             buffer_size = 8192
 
         self._obj = obj
